@@ -250,6 +250,11 @@ fn roles_for(sc: &Scen, prop: &str) -> Vec<Role> {
     let mut r = vec![Role::Subject];
     match prop {
         "C11" => r.push(Role::OtherFlavour),
+        "C02" => {
+            if !matches!(sc.w, WKind::None) {
+                r.push(Role::Reweighted);
+            }
+        }
         "C06" => match sc.w {
             WKind::None => {}
             WKind::Ones => r.push(Role::Unweighted),
@@ -562,7 +567,7 @@ impl<'a, T: Sc> Explorer<'a, T> {
                     let what = if s.res != t.res { "residuals" } else if s.coef != t.coef { "coefficients" } else if s.jac != t.jac { "jacobian" } else { "params" };
                     let (p, sig) = match role {
                         Role::OtherFlavour => ("C11", "parallel-differs-from-sequential"),
-                        Role::Reweighted => ("C06", "weights-applied-more-than-once"),
+                        Role::Reweighted => (if prop == "C02" { "C02" } else { "C06" }, "weights-applied-more-than-once"),
                         _ => ("C06", "unit-weights-differ-from-no-weights"),
                     };
                     self.violate(p, sig, format!("{} differ bitwise between the two problems at alphabet entry {}", what, ai));
@@ -745,6 +750,11 @@ impl<'a, T: Sc> Explorer<'a, T> {
             walks.push((0..3 * n).map(|i| i % n).collect());
             walks.push((0..4 * n).map(|i| i / 4).collect());
             walks.push((0..2 * n).map(|i| if i % 2 == 0 { 0 } else { (i / 2) % n }).collect());
+            if self.ctx.args.thorough() && self.sc_index % 64 == 0 {
+                // more updates than any fit can make (patience 100 x (P+1)): 1200 steps of a fixed pseudo-random walk
+                let mut x = 12345u64;
+                walks.push((0..1200).map(|_| { x = x.wrapping_mul(6364136223846793005).wrapping_add(1442695040888963407); ((x >> 33) as usize) % n }).collect());
+            }
             for w in walks {
                 let mut node: Vec<Box<dyn Prob<T>>> = root.iter().map(|p| p.clone_box()).collect();
                 self.hist.clear();
@@ -895,6 +905,28 @@ fn scenarios(prop: &str, thorough: bool) -> Vec<Scen> {
                     }
                 }
             }
+            // beyond the small scope: 4 and 5 basis functions / parameters, and sample counts around block sizes
+            for (fam, n) in [(Family::ExpN(4), 12usize), (Family::ExpN(5), 14), (Family::Exp2Off, 64), (Family::Exp2Off, 257), (Family::OLeary, 600), (Family::Exp1Off, 1025)] {
+                for par in [false, true] {
+                    if prop == "C11" && !par {
+                        continue;
+                    }
+                    for f32_ in [false, true] {
+                        if f32_ && matches!(fam, Family::ExpN(_)) {
+                            continue;
+                        }
+                        if !thorough && (n > 300 || (par && f32_)) {
+                            continue;
+                        }
+                        for (api, ycols) in [(Api::Single, vec![YCol::Noisy]), (Api::Mrhs, vec![YCol::Noisy, YCol::Off])] {
+                            let mut s = mk(&fam, n, if matches!(fam, Family::ExpN(_)) || n > 300 { Prov::Hand } else { Prov::Built }, f32_, par, api, ycols, if n % 2 == 0 { WKind::Ramp } else { WKind::None }, EpsKind::Default);
+                            s.alphas.truncate(4);
+                            s.depth = 2;
+                            v.push(s);
+                        }
+                    }
+                }
+            }
             // crafted singular values: configured threshold, its absolute value, absolute (not relative) meaning
             for f32_ in [false, true] {
                 for par in [false, true] {
@@ -1003,13 +1035,19 @@ fn scenarios(prop: &str, thorough: bool) -> Vec<Scen> {
             }
             sels.push(vec![YCol::OnModel, YCol::Off, YCol::Noisy, YCol::TwiceOn]);
             sels.push(vec![YCol::Noisy, YCol::Off, YCol::OnModel, YCol::Zero, YCol::DupOn]);
-            let fams: Vec<(Family, usize)> = vec![(Family::Exp1Off, 6), (Family::Exp2Off, 8), (Family::OLeary, 7), (Family::GenProd { m: 1, p: 1, inc: default_inc(1, 1) }, 5)];
+            // many right-hand sides (more than workers, more than any small-S special case): 33 and 70 columns cycling through the pool
+            sels.push((0..33).map(|i| pool[i % 5].clone()).collect());
+            sels.push((0..70).map(|i| pool[(i * 2) % 5].clone()).collect());
+            let fams: Vec<(Family, usize)> = vec![(Family::Exp1Off, 6), (Family::Exp2Off, 8), (Family::OLeary, 7), (Family::GenProd { m: 1, p: 1, inc: default_inc(1, 1) }, 5), (Family::GenProd { m: 3, p: 2, inc: [[true, true, false], [true, false, false], [false, true, false]] }, 8)];
             for (fi, (fam, n)) in fams.iter().enumerate() {
                 for (si, sel) in sels.iter().enumerate() {
                     for (wi, w) in [WKind::None, WKind::Ramp, WKind::Spread].iter().enumerate() {
                         for par in [false, true] {
                             for prov in provs {
                                 for f32_ in [false, true] {
+                                    if sel.len() > 30 && (prov == Prov::Built || (f32_ && !thorough) || (!thorough && wi == 2)) {
+                                        continue;
+                                    }
                                     if !thorough && ((si + fi + wi) % 4 != 0 || prov == Prov::Built && par || f32_ && (si % 3 != 0)) && sel.len() < 4 {
                                         continue;
                                     }
